@@ -20,6 +20,8 @@ open AITB AITB.Pol
     pgaapp  <comp> n S lr pl k { s q[n] }       | k×row[n] S×row[n] ns { s u act }
     thompson <comp> n cnt[n] val[n]             | act                                    val = the implementation-side posterior draws
     mc      <comp> n                            | policy[n] probs[n] ns { act }          Monte-Carlo tables: range / normalisation only
+    recommend <comp> n mean[n]                  | act                                    TopTwo / T3C recommendAction
+    fprob   <comp> m A[m] eps g[m] np { a[m] p } ns { act[m] }                           factored policies: queries over the whole joint space
     mc2     <comp> n trials cnt[n] qtrials qcnt[n] | policy[n] probs[n]                  Monte-Carlo tables vs the sampling counts of an identical copy
     esrl    <comp> n a N phases window k { act res } | (k+1)×( exploit probs[n] policy[n] act )
     sr      <comp> n k { nk mean[n] }           | nk1 (k+1)×( cur probs[n] policy[n] )
@@ -375,6 +377,35 @@ def mc2 : P String := do
   let v := v.failIf ((List.range n).any (fun a => decide (policy.getD a 0 ≤ 0) && cf a != 0)) s!"{comp} sample_zero_prob {cnt}"
   return v.render
 
+/-- `recommend <comp> n mean[n] | act` : the recommended arm maximises the estimates -/
+def recommendOp : P String := do
+  let comp ← P.tok; let n ← P.nat; let mean ← P.rep P.q n; P.bar
+  let act ← P.nat; P.eof
+  let v : Verdict := { tag := "recommend" }
+  let v := v.diffIf (recommend (fn mean) n != act) s!"{comp} recommendAction model={recommend (fn mean) n} impl={act}"
+  let v := v.failIf (act ≥ n) s!"{comp} sample_out_of_range {act}"
+  let v := v.failIf (act < n && mean.any (fun x => decide (fn mean act < x))) s!"{comp} recommend_not_max act={act} means={showL mean}"
+  return v.render
+
+/-- `fprob <comp> m A[m] eps g[m] np { a[m] p } ns { act[m] }` : per-joint-action queries over the whole joint space -/
+def fprob : P String := do
+  let comp ← P.tok; let m ← P.nat; let A ← P.rep P.nat m; let eps ← P.q; let g ← P.rep P.nat m
+  let np ← P.nat
+  let entries ← P.rep (do let a ← P.rep P.nat m; let p ← P.q; pure (a, p)) np
+  let ns ← P.nat; let samp ← P.rep (P.rep P.nat m) ns; P.eof
+  let v : Verdict := { tag := "fprob" }
+  let N := A.foldl (· * ·) 1
+  let v := v.diffIf (np != N) s!"{comp} joint_space size model={N} harness={np}"
+  let v := v.diffIf (entries.any (fun (a, p) => !(closeQ tol (jointEps eps N g a) p))) s!"{comp} getActionProbability model≠impl"
+  -- property clauses on the implementation's own numbers
+  let ps := entries.map (·.2)
+  let v := v.failIf (!((entries.map (·.1)).eraseDups.length == N && entries.all (fun (a, _) => (A.zip a).all (fun (k, x) => x < k))))
+    s!"{comp} joint_space_not_enumerated"
+  let v := rowClauses v comp "query" ps
+  let v := v.failIf (samp.any (fun a => (A.zip a).any (fun (k, x) => x ≥ k))) s!"{comp} joint_out_of_range {samp}"
+  let v := v.failIf (samp.any (fun a => entries.any (fun (b, p) => b == a && decide (p ≤ 0)))) s!"{comp} sample_zero_prob {samp}"
+  return v.render
+
 def esrl : P String := do
   let comp ← P.tok; let n ← P.nat; let a ← P.q; let N ← P.nat; let phases ← P.nat; let window ← P.nat; let k ← P.nat
   let ops ← P.rep (do let act ← P.nat; let r ← P.bool; pure (act, r)) k; P.bar
@@ -487,6 +518,8 @@ def handle (toks : List String) : String :=
     | "thompson" :: rest => P.run thompson rest
     | "mc" :: rest => P.run mc rest
     | "mc2" :: rest => P.run mc2 rest
+    | "recommend" :: rest => P.run recommendOp rest
+    | "fprob" :: rest => P.run fprob rest
     | "esrl" :: rest => P.run esrl rest
     | "sr" :: rest => P.run sr rest
     | "joint" :: rest => P.run joint rest
